@@ -147,7 +147,9 @@ func UpdateFloatLastFast(iRec, rec *Record, recColumn, iRecColumn, recRow, iRecR
 	})
 }
 
-func updateBooleanFirstLastImp(iRec, rec *Record, recColumn, iRecColumn, recRow, iRecRow int, isFast bool, compare func(t1, t2 int64) bool) {
+// keep decides between two values of one timestamp: first() keeps the smaller one (false), last()
+// the larger one (true), as BooleanFirstMerge / BooleanLastMerge of the executor do.
+func updateBooleanFirstLastImp(iRec, rec *Record, recColumn, iRecColumn, recRow, iRecRow int, isFast bool, compare func(t1, t2 int64) bool, keep func(src, v bool) bool) {
 	var v bool
 	if isFast {
 		v = rec.ColVals[recColumn].BooleanValues()[recRow]
@@ -168,7 +170,7 @@ func updateBooleanFirstLastImp(iRec, rec *Record, recColumn, iRecColumn, recRow,
 	if !isSrcNil && compare(t2, t1) {
 		return
 	}
-	if booleanCompareGreaterEqual(srcVal, v) && !isSrcNil {
+	if keep(srcVal, v) && !isSrcNil {
 		return
 	}
 	iRec.UpdateIntervalRecRow(rec, recRow, iRecRow)
@@ -177,25 +179,25 @@ func updateBooleanFirstLastImp(iRec, rec *Record, recColumn, iRecColumn, recRow,
 func UpdateBooleanFirst(iRec, rec *Record, recColumn, iRecColumn, recRow, iRecRow int) {
 	updateBooleanFirstLastImp(iRec, rec, recColumn, iRecColumn, recRow, iRecRow, false, func(t1, t2 int64) bool {
 		return t1 > t2
-	})
+	}, booleanCompareLessEqual)
 }
 
 func UpdateBooleanFirstFast(iRec, rec *Record, recColumn, iRecColumn, recRow, iRecRow int) {
 	updateBooleanFirstLastImp(iRec, rec, recColumn, iRecColumn, recRow, iRecRow, true, func(t1, t2 int64) bool {
 		return t1 > t2
-	})
+	}, booleanCompareLessEqual)
 }
 
 func UpdateBooleanLast(iRec, rec *Record, recColumn, iRecColumn, recRow, iRecRow int) {
 	updateBooleanFirstLastImp(iRec, rec, recColumn, iRecColumn, recRow, iRecRow, false, func(t1, t2 int64) bool {
 		return t1 < t2
-	})
+	}, booleanCompareGreaterEqual)
 }
 
 func UpdateBooleanLastFast(iRec, rec *Record, recColumn, iRecColumn, recRow, iRecRow int) {
 	updateBooleanFirstLastImp(iRec, rec, recColumn, iRecColumn, recRow, iRecRow, true, func(t1, t2 int64) bool {
 		return t1 < t2
-	})
+	}, booleanCompareGreaterEqual)
 }
 
 func updateStringFirstLastImp(iRec, rec *Record, recColumn, iRecColumn, recRow, iRecRow int, compare func(t1, t2 int64) bool) {
@@ -334,7 +336,7 @@ func UpdateFloatColumnLastFast(iRec, rec *Record, recColumn, iRecColumn, recRow,
 	})
 }
 
-func updateBooleanColumnFirstLastImp(iRec, rec *Record, recColumn, iRecColumn, recRow, iRecRow int, isFast bool, compare func(t1, t2 int64) bool) {
+func updateBooleanColumnFirstLastImp(iRec, rec *Record, recColumn, iRecColumn, recRow, iRecRow int, isFast bool, compare func(t1, t2 int64) bool, keep func(src, v bool) bool) {
 	var v bool
 	if isFast {
 		v = rec.ColVals[recColumn].BooleanValues()[recRow]
@@ -355,7 +357,7 @@ func updateBooleanColumnFirstLastImp(iRec, rec *Record, recColumn, iRecColumn, r
 	if !isSrcNil && compare(rec.RecMeta.Times[recColumn][recRow], iRec.RecMeta.Times[iRecColumn][iRecRow]) {
 		return
 	}
-	if booleanCompareGreaterEqual(srcVal, v) && !isSrcNil {
+	if keep(srcVal, v) && !isSrcNil {
 		return
 	}
 	iRec.ColVals[iRecColumn].UpdateBooleanValue(v, false, iRecRow)
@@ -365,25 +367,25 @@ func updateBooleanColumnFirstLastImp(iRec, rec *Record, recColumn, iRecColumn, r
 func UpdateBooleanColumnFirst(iRec, rec *Record, recColumn, iRecColumn, recRow, iRecRow int) {
 	updateBooleanColumnFirstLastImp(iRec, rec, recColumn, iRecColumn, recRow, iRecRow, false, func(t1, t2 int64) bool {
 		return t1 > t2
-	})
+	}, booleanCompareLessEqual)
 }
 
 func UpdateBooleanColumnFirstFast(iRec, rec *Record, recColumn, iRecColumn, recRow, iRecRow int) {
 	updateBooleanColumnFirstLastImp(iRec, rec, recColumn, iRecColumn, recRow, iRecRow, true, func(t1, t2 int64) bool {
 		return t1 > t2
-	})
+	}, booleanCompareLessEqual)
 }
 
 func UpdateBooleanColumnLast(iRec, rec *Record, recColumn, iRecColumn, recRow, iRecRow int) {
 	updateBooleanColumnFirstLastImp(iRec, rec, recColumn, iRecColumn, recRow, iRecRow, false, func(t1, t2 int64) bool {
 		return t1 < t2
-	})
+	}, booleanCompareGreaterEqual)
 }
 
 func UpdateBooleanColumnLastFast(iRec, rec *Record, recColumn, iRecColumn, recRow, iRecRow int) {
 	updateBooleanColumnFirstLastImp(iRec, rec, recColumn, iRecColumn, recRow, iRecRow, true, func(t1, t2 int64) bool {
 		return t1 < t2
-	})
+	}, booleanCompareGreaterEqual)
 }
 
 func updateStringColumnFirstLastImp(iRec, rec *Record, recColumn, iRecColumn, recRow, iRecRow int, compare func(t1, t2 int64) bool) {
